@@ -7,6 +7,11 @@ VARIABLE i
 Init == i = 0
 Next == /\ i < Len(Recs)
         /\ i' = i + 1
-        /\ PrintT(<<"VERDICT", ToJson([id |-> Recs[i + 1].id,
-                                        bad |-> BuilderDefects(Recs[i + 1].doc, Recs[i + 1].g)])>>)
+        /\ LET r == Recs[i + 1]
+           IN \* the documents are valid by construction (every reference defined, no recursion,
+              \* kinds unique per rule): the compiler has to build a grammar from each
+              PrintT(<<"VERDICT", ToJson([id |-> r.id,
+                        bad |-> IF "err" \in DOMAIN r.g
+                                THEN {<<"valid_document_rejected", r.g.err, r.g.msg>>}
+                                ELSE BuilderDefects(r.doc, r.g)])>>)
 =============================================================================
